@@ -198,3 +198,31 @@ FUNCTIONS.update({
 EXTERNS.update({
   'AsyncResult.wait': dict(params=[('timeout', 'real?')], yields=True, returns='bool', notes='blocks the calling greenlet (gevent)'),
 })
+
+# ---------------------------------------------------------------------------- message properties (C13: which entries travel)
+CLASSES.update({
+  # scales.message.Message as it is for its own methods: a lazily created plain dictionary
+  'MessageObj': dict(file='scales/message.py', path='Message', bases=[], fields={'_properties': 'dict[str,any]?'}),
+})
+FUNCTIONS.update({
+  'MessageObj.properties': dict(
+    file='scales/message.py', path='Message.properties', cls='MessageObj', returns='dict[str,any]',
+    requires=['allocated(self._properties)'],
+    ensures=['result == self._properties', 'implies(old(self._properties is not None and card(self._properties) > 0), result == old(self._properties))'],
+    modifies=['MessageObj._properties', 'dict[str,any]'], allocates=True,
+    literals={'{}': 'dict[str,any]'},
+    props=['C13'],
+  ),
+  # the context entries of a dispatch: every property whose key does not start with '__', with its
+  # value, whatever that value is (empty strings included) -- and nothing else
+  'MessageObj.public_properties': dict(
+    file='scales/message.py', path='Message.public_properties', cls='MessageObj', returns='dict[str,any]',
+    requires=['self._properties is not None and card(self._properties) > 0', 'allocated(self._properties)'],
+    ensures=['forall(k, "str", has_key(result, k) == (has_key(old(self._properties), k) and not starts_dunder(k)))',
+             'forall(k, "str", implies(has_key(result, k), result[k] == old(self._properties)[k]))'],
+    modifies=['dict[str,any]', 'MessageObj._properties'], allocates=True,
+    inline_calls=['MessageObj.properties'],
+    props=['C13'],
+  ),
+})
+PREDICATES['starts_dunder'] = (['k'], 'k.startswith("__")')
